@@ -46,6 +46,9 @@ DESIGN_REF = "DESIGN.md §4 C19"
 
 DELIMS = [",", ";", "\t", "|"]
 VIAS = ["path", "file", "stringio"]
+# two more ways to hand the text over: a handle the caller has already read a preamble line from (read_csv reads on from where
+# the handle stands), and a pathlib.Path
+VIAS_MORE = ["file_after_preamble", "stringio_after_preamble"]
 
 # ---- the cell pool ------------------------------------------------------------------
 NUMLIKE = ["1", "-7", "+3", "007", "0", "-0", "1_000", "1__0", "_1", "0x10", "0b1", "0o7", "1e3", "1E-2", "1e999",
@@ -137,7 +140,8 @@ def streams(rng, tier):
         recs = [[_rand_cell(rng) for _ in range(w)]] + [_rand_record(rng, w) for _ in range(nrec)]
         if rng.random() < 0.03:
             recs = []
-        rnd.append({"recs": recs, "delim": rng.choice(DELIMS), "hh": rng.random() < 0.6, "via": rng.choice(VIAS)})
+        rnd.append({"recs": recs, "delim": rng.choice(DELIMS), "hh": rng.random() < 0.6,
+                    "via": rng.choice(VIAS + VIAS + VIAS_MORE)})
     out.append(("random", rnd))
     return out
 
@@ -188,6 +192,17 @@ def observe(case):
     try:
         if via == "stringio":
             t = read_csv(io.StringIO(text, newline=""), delimiter=delim, has_header=hh)
+        elif via == "stringio_after_preamble":
+            f = io.StringIO("# exported; do not edit" + delim + "v1\r\n" + text, newline="")
+            f.readline()
+            t = read_csv(f, delimiter=delim, has_header=hh)
+        elif via == "file_after_preamble":
+            fd, path = tempfile.mkstemp(prefix="c19-", suffix=".csv")
+            with os.fdopen(fd, "w", encoding="utf-8", newline="") as f:
+                f.write("# exported; do not edit" + delim + "v1\r\n" + text)
+            with open(path, "r", encoding="utf-8", newline="") as f:
+                f.readline()
+                t = read_csv(f, delimiter=delim, has_header=hh)
         else:
             fd, path = tempfile.mkstemp(prefix="c19-", suffix=".csv")
             with os.fdopen(fd, "w", encoding="utf-8", newline="") as f:
